@@ -14,5 +14,84 @@ pub(crate) fn mk_truncated_double_geometric(shift: u32) -> TruncatedDoubleGeomet
     }
 }
 
+// ---- the deterministic skeleton of the sampler over an explicit coin tape (property C12: "rejection-sampled
+// double geometric on [0, 2n]"). The probability of each coin is not modelled; what is decided is *which function
+// of the coin sequence* the sampler computes:
+//   Geometric          = number of failures before the first success
+//   DoubleGeometric    = shift + G1 - G2
+//   TruncatedDoubleGeometric = the first DoubleGeometric draw that lies in [0, 2*shift], unchanged; draws outside
+//                              are rejected and redrawn (never clamped, folded or otherwise mapped into the range)
+// BOUNDED: coin tapes of length <= 8.
+const TAPE: usize = 8;
+struct CoinTape {
+    coins: [bool; TAPE],
+    pos: usize,
+}
+impl rand::RngCore for CoinTape {
+    fn next_u32(&mut self) -> u32 {
+        (self.next_u64() >> 32) as u32
+    }
+    fn next_u64(&mut self) -> u64 {
+        // a Bernoulli(1/2) draw succeeds iff the 64-bit word is below 2^63
+        kani::assume(self.pos < TAPE);
+        let c = self.coins[self.pos];
+        self.pos += 1;
+        if c { 0 } else { u64::MAX }
+    }
+    fn fill_bytes(&mut self, _d: &mut [u8]) {
+        unreachable!()
+    }
+    fn try_fill_bytes(&mut self, _d: &mut [u8]) -> Result<(), rand::Error> {
+        unreachable!()
+    }
+}
+
+/// spec: read one geometric value off the tape starting at *pos
+fn spec_geometric(coins: &[bool; TAPE], pos: &mut usize) -> i64 {
+    let mut fails = 0i64;
+    while *pos < TAPE && !coins[*pos] {
+        fails += 1;
+        *pos += 1;
+    }
+    *pos += 1; // the success
+    fails
+}
+
+#[kani::proof]
+#[kani::unwind(10)]
+fn c12_rejection_sampler_skeleton() {
+    let shift: u32 = kani::any();
+    kani::assume(shift <= 2);
+    let d = mk_truncated_double_geometric(shift);
+    let mut rng = CoinTape { coins: kani::any(), pos: 0 };
+    let coins = rng.coins;
+    let r: u32 = d.sample(&mut rng);
+    // independent replay of the tape
+    let mut pos = 0usize;
+    let mut expect: i64 = -1;
+    let mut rejected_below = false;
+    let mut rejected_above = false;
+    let mut rounds = 0;
+    while rounds < 4 && pos < TAPE {
+        let g1 = spec_geometric(&coins, &mut pos);
+        let g2 = spec_geometric(&coins, &mut pos);
+        let v = i64::from(shift) + g1 - g2;
+        if v >= 0 && v <= 2 * i64::from(shift) {
+            expect = v;
+            break;
+        }
+        rejected_below |= v < 0;
+        rejected_above |= v > 2 * i64::from(shift);
+        rounds += 1;
+    }
+    kani::cover!(rejected_below);
+    kani::cover!(rejected_above);
+    kani::cover!(r == 0 && shift > 0);
+    kani::cover!(r == 2 * shift && shift > 0);
+    assert!(expect >= 0, "the sampler returned although no in-range draw is on the tape");
+    assert!(i64::from(r) == expect);
+    assert!(rng.pos == pos, "the sampler consumes exactly the coins of the draws it made");
+}
+
 #[cfg(test)]
 include!(concat!(env!("IPA_VERIF_DIR"), "/.build/playback/oprf_distributions.rs"));
